@@ -171,4 +171,11 @@ CLAIMS['C20'] = {
   'text': "Decides for the four bridges: a factor request copies (value - 1, full extent) instead of modifying the caller's arrays, runs the same ordered phases as the simple driver on the matrix built from those copies and parks exactly the factored objects in the handle; a solve request wraps b with its leading dimension and solves with the objects read back from the handle; a free request releases everything the factor request allocated (incl. every pointer field of L and U through the destroyers) and the handle last; no request can write values / rowind / colptr; no temporary leaks; the bridge has no file-scope state (handles cannot interfere). Numerical equality with the C driver is not decided.",
   'note': 'The tested build does not compile FORTRAN/; the units are parsed with the same flags.',
 }
+CLAIMS['C16'] = {
+  'level': 'other',
+  'technique': 'static analysis: structural AST rules on the readers (index-base conversion, buffer/width agreement, scanf conversion vs pointee type, equal extents of co-indexed arrays), ownership dataflow (R4), sibling and twin agreement (R9)',
+  'design_ref': 'DESIGN.md 5 C16',
+  'text': "Only the clauses whose truth is in the shape of the code are decided: 1-based file indices become 0-based exactly once; no read can overrun a line/field buffer; every scanf conversion matches its argument's type; arrays filled in lock step have equal extents; temporaries are released; the s/d and c/z readers and the HB/RB copies of the parsing helpers and of the symmetric expansion agree. That the returned matrix equals the file (field slicing, exponent handling, entry order, size of the symmetric expansion with missing diagonal entries) cannot be decided by this family and is NOT claimed.",
+  'note': 'This is the thinnest claim of the set; most of the property is listed as not decided in the evidence explanation.',
+}
 NOT_APPLICABLE = {}
